@@ -591,7 +591,7 @@ def _check_provenance(src_snap, G, tname, si, op):
     for (k, v) in src_header:
         gv = dict(got)[k]
         if k == "description":
-            if not str(gv).startswith(str(v)):
+            if str(v) not in str(gv):
                 bad("description-lost", "%r became %r" % (v, gv))
         elif gv != v:
             bad("earlier-entry-changed", "%r: %r became %r" % (k, v, gv))
